@@ -2,6 +2,13 @@
 //! Bit-serial CRC-32/ISO-HDLC, reflected polynomial 0xEDB88320 — validated
 //! natively against the real crate by /verif/native/validate_shims (setup_cmd).
 
+/// Harness switch: when set, `update` is the cheap mixer below.  A plain flag (not a Kani stub) so that a solver
+/// counterexample replays natively with the same checksum function the solver saw.
+static mut CHEAP: bool = false;
+pub fn verif_set_cheap(on: bool) {
+    unsafe { CHEAP = on; }
+}
+
 #[derive(Clone, Debug)]
 pub struct Hasher {
     state: u32,
@@ -23,6 +30,9 @@ impl Hasher {
     }
 
     pub fn update(&mut self, buf: &[u8]) {
+        if unsafe { CHEAP } {
+            return self.update_cheap(buf);
+        }
         let mut crc = self.state;
         let mut i = 0;
         while i < buf.len() {
@@ -38,7 +48,7 @@ impl Hasher {
         self.state = crc;
     }
 
-    /// NOT a CRC: a cheap byte mixer that harnesses may stub `update` with when the checksum's value is
+    /// NOT a CRC: a cheap byte mixer that harnesses may switch `update` to (verif_set_cheap) when the checksum's value is
     /// not the subject (parse/recreate symmetry only needs "same function on both sides").
     pub fn update_cheap(&mut self, buf: &[u8]) {
         let mut s = self.state;
